@@ -126,14 +126,33 @@ pub fn main(args: &[String]) {
       }
       let (q, p, far) = (ms[0], ms[1], ms[2]);
       let v = rng.below(6);
-      files.insert(q.to_string(), json!({"text": text_pool(q, q, q, v, long)[5]}));
-      files.insert(p.to_string(), json!({"text": text_pool(p, q, q, v, long)[4]}));
-      files.insert(far.to_string(), json!({"text": text_pool(far, p, p, v, long)[6]}));
-      ops.push(json!({"op": "Init", "files": files}));
-      for step in 1..=3 {
-        let mut u = serde_json::Map::new();
-        u.insert(q.to_string(), json!({"text": text_pool(q, q, q, v + step, long)[5]}));
-        ops.push(json!({"op": "Update", "u": u}));
+      if rng.chance(1, 2) {
+        files.insert(q.to_string(), json!({"text": text_pool(q, q, q, v, long)[5]}));
+        files.insert(p.to_string(), json!({"text": text_pool(p, q, q, v, long)[4]}));
+        files.insert(far.to_string(), json!({"text": text_pool(far, p, p, v, long)[6]}));
+        ops.push(json!({"op": "Init", "files": files}));
+        for step in 1..=3 {
+          let mut u = serde_json::Map::new();
+          u.insert(q.to_string(), json!({"text": text_pool(q, q, q, v + step, long)[5]}));
+          ops.push(json!({"op": "Update", "u": u}));
+        }
+      } else {
+        // the far module's diagnostic names a member that is written in the root module only: an interface of q,
+        // extended by an interface of p, implemented (incompletely) in far; q then renames / drops / restores it
+        let l = if long { "WithAVeryLongSuffixForGc" } else { "" };
+        let root = |required: &[&str]| {
+          let ms: Vec<String> = required.iter().map(|r| format!("  method {r}{l}(): int\n")).collect();
+          format!("interface Base{q}{l} {{\n{}}}\n", ms.join(""))
+        };
+        files.insert(q.to_string(), json!({"text": root(&["requiredByTheRoot", "alsoRequiredByTheRoot"])}));
+        files.insert(p.to_string(), json!({"text": format!("import {{ Base{q}{l} }} from {q}\ninterface Mid{p}{l} : Base{q}{l} {{\n  method midMethod{l}(): int\n}}\n")}));
+        files.insert(far.to_string(), json!({"text": format!("import {{ Mid{p}{l} }} from {p}\nclass Impl{far}{l}(val v{l}: int) : Mid{p}{l} {{\n  method midMethod{l}(): int = this.v{l}\n}}\n")}));
+        ops.push(json!({"op": "Init", "files": files}));
+        for required in [&["renamedRequirementOfTheRoot"][..], &[][..], &["requiredByTheRoot"][..]] {
+          let mut u = serde_json::Map::new();
+          u.insert(q.to_string(), json!({"text": root(required)}));
+          ops.push(json!({"op": "Update", "u": u}));
+        }
       }
     } else {
       ops.push(json!({"op": "Init", "files": files}));
